@@ -51,6 +51,14 @@ INV = {"identity": "identity", "mirror-x": "mirror-x", "mirror-y": "mirror-y", "
 
 def structures(tier, seed):
     out = [{"sid": "lemma;geometry", "part": "lemma"}, {"sid": "native;two-face-domains-vs-undivided[bounded]", "part": "native"}]
+    for a, side in itertools.product(("X", "Y"), (0, 1)):
+        for lk in C05.LINK_KINDS:
+            out.append({"sid": f"padscalar;{a}{'lr'[side]}:{lk[0]}{'-rev' if lk[1] else ''}", "part": "padscalar", "entry": {f"{a}{side}": list(lk)}, "bw": [a], "rules": {"X": "extend", "Y": "fill"}})
+    for a in ("X", "Y"):
+        for lkL, lkR in itertools.product(C05.LINK_KINDS, repeat=2):
+            if lkL != lkR or tier == "thorough":
+                out.append({"sid": f"padscalar;{a}l:{lkL[0]}{'-rev' if lkL[1] else ''}+{a}r:{lkR[0]}{'-rev' if lkR[1] else ''}", "part": "padscalar",
+                            "entry": {f"{a}0": list(lkL), f"{a}1": list(lkR)}, "bw": ["X", "Y"], "rules": {"X": "fill", "Y": "periodic"}, "extra": "after"})
     shapes = []
     for op in OPS:
         shifts = [("center", "left"), ("center", "right"), ("left", "center"), ("center", "outer")]
@@ -264,11 +272,23 @@ def run_native(s):
     return {"sid": s["sid"], "obligations": obs, "paths": 0, "queries": 0, "solver_time": 0.0, "engine_errors": [], "covers": {"native": 1}, "counts": {"bounded_standin_evaluations": n}}
 
 
+def run_padscalar(s):
+    """the C05 contract of the real padding code for scalar inputs, re-proved here (C03 = C05 o C01 o lemma): every link
+    kind on every slot and every pair of different kinds on the two sides of an axis"""
+    s5 = C05.mk(None, {(k[0], int(k[1])): tuple(v) for k, v in s["entry"].items()}, tuple(s["bw"]), dict(s["rules"]), s.get("extra", "none"))
+    r = C05.run_structure(s5)
+    r["sid"] = s["sid"]
+    for o in r["obligations"]:
+        o["fn"] = "padding._pad_face_connections[scalar]"
+    r["covers"] = {"padscalar": 1}
+    return r
+
+
 def run_structure(s):
-    return {"lemma": run_lemma, "dispatch": run_dispatch, "native": run_native}[s["part"]](s)
+    return {"lemma": run_lemma, "dispatch": run_dispatch, "native": run_native, "padscalar": run_padscalar}[s["part"]](s)
 
 
-REQUIRED_COVERS = ["lemma", "returned"]
+REQUIRED_COVERS = ["lemma", "returned", "padscalar"]
 
 
 # ------------------------------------------------------------------------------------------------ native replay
@@ -368,6 +388,9 @@ def native_dispatch_replay(op, pf, pt, entry, kind, N=4):
 
 def replay(ob):
     wit = ob.get("witness") or {}
+    if "structure" in wit and "part" not in wit:
+        from harness import native_pad
+        return native_pad.replay_face(ob)
     if wit.get("part") == "native":
         return {"confirmed": True, "text": f"two-face domain, link {wit['tag']}, neighbour oriented {wit['orientation']}: the face result differs from the undivided result on the real code"}
     if wit.get("part") == "dispatch":
